@@ -548,6 +548,17 @@ def D59():
         flat.setup_optim_problem(pr, tg).optimize().value,
         eao.portfolio.Portfolio([sc('sc', min_cap=-100, max_cap=100), sa]).setup_optim_problem(pr, tg).optimize().value)
 
+@witness
+def D60():
+    import pandas as pd
+    inner = A.Node('inner')
+    tg = A.Timegrid(dt.date(2021, 1, 1), dt.date(2021, 1, 5), freq='d')
+    ob = dict(start=[pd.Timestamp(2020, 1, 1), pd.Timestamp(2021, 1, 1), pd.Timestamp(2021, 1, 2)], end=[pd.Timestamp(2020, 1, 2), pd.Timestamp(2021, 1, 3), pd.Timestamp(2021, 1, 4)],
+              capa=[1., 1., -2.], price=[1., 5., 12.])
+    sa = eao.portfolio.StructuredAsset(eao.portfolio.Portfolio([A.OrderBook('ob', inner, orders=ob), A.Transport('tr', [inner, N1], min_cap=-10, max_cap=10)]), name='sa', nodes=N1)
+    r = eao.portfolio.Portfolio([sc('sc', min_cap=-100, max_cap=100), sa]).setup_optim_problem({'p': 10 * np.ones(tg.T)}, tg).optimize()
+    return 'order book with an order outside the horizon + transport inside a structured asset: value %.2f (flat portfolio: 432.00)' % r.value
+
 if __name__ == '__main__':
     which = sys.argv[1:] or list(W)
     for k in which:
